@@ -107,4 +107,36 @@ var pinned = []Case{
 	{Mode: "seq", Kind: "goslice", Keys: []string{"0", "1", "a"}, Twin: "issuer", TSeed: 1, Ops: []Op{
 		{Op: "seal", Obj: "T", Iss: "object"},
 	}},
+	// -22 String object: a key added by the for-in body is visited (late snapshot of the non-index keys)
+	{Mode: "seq", Kind: "string", Keys: []string{"a", "0", "length"}, Twin: "issuer", TSeed: 1, Ops: []Op{
+		{Op: "enum", Obj: "T", Step: 0, Iss: "forin", Body: &Op{Op: "set", Obj: "T", Key: "a", Val: "1", Iss: "js"}},
+	}},
+	// -23 sparse array: Object.entries visits a key added by a getter and an element twice after an insertion
+	{Mode: "seq", Kind: "sparse", Keys: []string{"7", "1", "a"}, Twin: "issuer", TSeed: 1, Ops: []Op{
+		{Op: "define", Obj: "T", Key: "7", Mask: 4 | 16 | 32, Get: "GM", Flags: 6, Iss: "object"},
+		{Op: "enum", Obj: "T", Step: 0, Iss: "entries", Body: &Op{Op: "set", Obj: "T", Key: "1", Val: "1", Iss: "js"}},
+	}},
+	// -24 dense array: a hole filled by the for-in body is visited
+	{Mode: "seq", Kind: "dense", Keys: []string{"1", "a", "length"}, Twin: "issuer", TSeed: 1, Ops: []Op{
+		{Op: "delete", Obj: "T", Key: "1", Iss: "js"},
+		{Op: "enum", Obj: "T", Step: 0, Iss: "forin", Body: &Op{Op: "set", Obj: "T", Key: "1", Val: "1", Iss: "js"}},
+	}},
+	// -25 delete during an abandoned for-in, then index keys: own-key order (seeded mutation C04-delete-during-enum-proporder)
+	{Mode: "seq", Kind: "plain", Keys: []string{"a", "b", "7", "2"}, Twin: "issuer", TSeed: 1, Ops: []Op{
+		{Op: "set", Obj: "T", Key: "a", Val: "1", Iss: "js"},
+		{Op: "set", Obj: "T", Key: "b", Val: "2", Iss: "js"},
+		{Op: "enum", Obj: "T", Step: 0, Brk: true, Iss: "forin", Body: &Op{Op: "delete", Obj: "T", Key: "a", Iss: "js"}},
+		{Op: "set", Obj: "T", Key: "7", Val: "sa", Iss: "js"},
+		{Op: "set", Obj: "T", Key: "2", Val: "sb", Iss: "js"},
+		{Op: "ownKeys", Obj: "T", Iss: "reflect"},
+	}},
+	// -26 same bookkeeping seen through the array [[Set]] fast path: the prototype's read-only index property must block
+	{Mode: "seq", Kind: "dense", Keys: []string{"a", "b", "7"}, Twin: "spelling", TSeed: 1, Ops: []Op{
+		{Op: "set", Obj: "P1", Key: "a", Val: "1", Iss: "js"},
+		{Op: "set", Obj: "P1", Key: "b", Val: "2", Iss: "js"},
+		{Op: "enum", Obj: "P1", Step: 0, Brk: true, Iss: "forin", Body: &Op{Op: "delete", Obj: "P1", Key: "a", Iss: "js"}},
+		{Op: "define", Obj: "P1", Key: "7", Mask: 1 | 16 | 32, Val: "sa", Flags: 6, Iss: "object"},
+		{Op: "setProto", Obj: "T", Val: "P1", Iss: "object"},
+		{Op: "set", Obj: "T", Key: "7", Num: true, Val: "sb", Iss: "reflect"},
+	}},
 }
